@@ -57,40 +57,58 @@ fn hash_upd(key: &str, fields: &[(&str, &[u8], u64, u64)], t: u64, r: u64) -> Up
     (key.to_string(), MRv { crdt: MCrdt::H(h), vc: None, exp: None, t, r, rf: None }.to_real())
 }
 
-/// which manifestation of "keep latest instead of merge" / tombstone GC is this?
-fn classify(before: &Fold, after: &Fold, tombs_removed: u64) -> String {
+/// classify a before/after difference BY CAUSE.
+/// * a tombstone was dropped (`tombs_removed > 0`):
+///   - a key that read as deleted is live now                      → older-value-resurfaces
+///   - same register, only the expiry differs, and the key has a tombstone below the cutoff
+///                                                                 → expiry-of-dropped-tombstone
+///   - same register, other merged metadata (vector clock / rf / outer stamp) differs likewise
+///                                                                 → metadata-of-dropped-tombstone
+/// * no tombstone was dropped and the value / fields differ        → keep-latest:* (fixed defect:
+///   listed under `fixed`, so firing is a VIOLATION)
+/// * anything else                                                 → compaction:state-differs / key-lost
+fn classify(before: &Fold, after: &Fold, tombs_removed: u64, all: &[Upd], cutoff: u64) -> String {
     let b: HashMap<&String, &MRv> = before.iter().map(|(k, v)| (k, v)).collect();
     let a: HashMap<&String, &MRv> = after.iter().map(|(k, v)| (k, v)).collect();
+    let is_tomb = |v: &MRv| matches!(&v.crdt, MCrdt::Lww(l) if l.tomb);
+    let expired_tombs = |k: &String| -> Vec<MRv> {
+        all.iter().filter(|(k2, _)| k2 == k).map(|(_, v)| MRv::from_real(v)).filter(|m| is_tomb(m) && m.t < cutoff).collect()
+    };
     if tombs_removed > 0 {
-        // a key that was a tombstone before and is a live value (or differs) now
         for (k, v) in &b {
-            if matches!(&v.crdt, MCrdt::Lww(l) if l.tomb) {
-                if let Some(x) = a.get(k) {
-                    if !matches!(&x.crdt, MCrdt::Lww(l) if l.tomb) {
-                        return "C13:tombstone-gc:older-value-resurfaces".into();
+            match a.get(k) {
+                Some(x) if is_tomb(v) && !is_tomb(x) => return "C13:tombstone-gc:older-value-resurfaces".into(),
+                Some(x) if !is_tomb(v) && *x != *v => {
+                    // the dropped survivor is the merge of the compacted deltas of the key: with
+                    // it goes everything they contributed to the merged value of a NEWER write
+                    // held outside the compaction — expiry, vector clock, rf, outer stamp
+                    if x.crdt == v.crdt && !expired_tombs(k).is_empty() {
+                        if x.vc == v.vc && x.rf == v.rf && (x.t, x.r) == (v.t, v.r) && x.exp != v.exp {
+                            return "C13:tombstone-gc:expiry-of-dropped-tombstone".into();
+                        }
+                        return "C13:tombstone-gc:metadata-of-dropped-tombstone".into();
                     }
+                    return "C13:compaction:state-differs".into();
                 }
+                None if !is_tomb(v) => return "C13:compaction:key-lost".into(),
+                _ => {}
             }
         }
+        return "C13:compaction:state-differs".into();
     }
     for (k, v) in &b {
         match a.get(k) {
-            None => {
-                if !matches!(&v.crdt, MCrdt::Lww(l) if l.tomb) {
-                    // live before, gone now: keep-latest made a tombstone the survivor of the
-                    // compacted deltas although their merge is live, then GC dropped it
-                    return match &v.crdt {
-                        MCrdt::Lww(_) if tombs_removed > 0 => "C13:keep-latest:lww".into(),
-                        _ => "C13:compaction:key-lost".into(),
+            None => return "C13:compaction:key-lost".into(),
+            Some(x) if *x != *v => {
+                if x.crdt != v.crdt || (x.t, x.r) != (v.t, v.r) {
+                    return match (&v.crdt, &x.crdt) {
+                        (MCrdt::H(_), _) | (_, MCrdt::H(_)) => "C13:keep-latest:hash".into(),
+                        (MCrdt::Lww(_), MCrdt::Lww(_)) => "C13:keep-latest:lww".into(),
+                        _ => "C13:keep-latest:counter-or-set".into(),
                     };
                 }
-            }
-            Some(x) if *x != *v => {
-                return match (&v.crdt, &x.crdt) {
-                    (MCrdt::H(_), _) | (_, MCrdt::H(_)) => "C13:keep-latest:hash".into(),
-                    (MCrdt::Lww(_), MCrdt::Lww(_)) => "C13:keep-latest:lww".into(),
-                    _ => "C13:keep-latest:counter-or-set".into(),
-                };
+                // value and stamp equal, merged metadata (expiry / vector clock / rf) differs
+                return "C13:keep-latest:metadata".into();
             }
             _ => {}
         }
@@ -138,7 +156,7 @@ async fn layout_case(out: &mut Out, groups: &[Vec<Upd>], c: &CCfg, big: &[bool],
             }
             let differs = if tombs == 0 { a != b } else { visible(a) != visible(b) };
             if differs {
-                let sig = classify(b, a, tombs);
+                let sig = classify(b, a, tombs, &all, c.cutoff);
                 out.violation(&sig, "the state recovered after the compaction differs from the state recovered before it",
                     replay(json!({"before": show_upds(b), "after": show_upds(a), "tombstones_removed": tombs})));
             } else if expect_known {
@@ -471,6 +489,30 @@ pub fn run(a: &Args) {
             .collect();
         layout_case(&mut out, &[big, vec![tomb_upd("t", 5, 1)], vec![lww_upd("u", b"1", 6, 1, false)]],
             &CCfg { target: 1000, min: 2, maxper: 5, cutoff: 100 }, &[], "corpus:older-value-in-skipped-segment", true).await;
+        // the dropped tombstone carries an expiry (record_delete keeps expiry_ms) that the merge with a
+        // newer value in an uncompacted segment retains (max of expiries): GC removes it
+        let mut v13 = lww_upd("k", b"v13", 5, 1, false);
+        v13.1.expiry_ms = Some(2000);
+        let mut td = tomb_upd("k", 6, 1);
+        td.1.expiry_ms = Some(2000);
+        let bigk: Vec<Upd> = std::iter::once(lww_upd("k", b"v16", 8, 1, false))
+            .chain((0..12).map(|i| lww_upd(&format!("pad{}", i), &[b'x'; 30], 1, 1, false)))
+            .collect();
+        layout_case(&mut out, &[vec![v13], vec![td], bigk],
+            &CCfg { target: 1000, min: 2, maxper: 5, cutoff: 100 }, &[], "corpus:expiry-of-dropped-tombstone", true).await;
+        // same with the vector clock (Causal mode, two replicas): the dropped tombstone of r1 contributed
+        // {r1:2} to the merged vector clock of r2's newer write
+        let with_vc = |mut u: Upd, vc: &[(u64, u64)]| -> Upd {
+            let mut m = MRv::from_real(&u.1);
+            m.vc = Some(vc.iter().cloned().collect());
+            u.1 = m.to_real();
+            u
+        };
+        let bigv: Vec<Upd> = std::iter::once(with_vc(lww_upd("k", b"b", 8, 2, false), &[(2, 1)]))
+            .chain((0..12).map(|i| lww_upd(&format!("pad{}", i), &[b'x'; 30], 1, 1, false)))
+            .collect();
+        layout_case(&mut out, &[vec![with_vc(lww_upd("k", b"a", 5, 1, false), &[(1, 1)])], vec![with_vc(tomb_upd("k", 6, 1), &[(1, 2)])], bigv],
+            &CCfg { target: 1000, min: 2, maxper: 5, cutoff: 100 }, &[], "corpus:vclock-of-dropped-tombstone", true).await;
         production_clock_witness(&mut out).await;
         interleave_case(&mut out).await;
         enumerate_races(&mut out).await;
